@@ -50,7 +50,6 @@ func TestCheck(t *testing.T) {
 			t.Fail()
 		}
 	}()
-	rng := rand.New(rand.NewSource(ev.Seed()))
 
 	// ---- model checks (started once the histories are recorded: the recording wants the CPUs for itself)
 	noTE := []string{"-noGenerateSpecTE"}
@@ -78,62 +77,22 @@ func TestCheck(t *testing.T) {
 	traces := int64(0)
 
 	// ---- (1) linearizability of map / atomic map / slice
-	nRandom := ev.Pick(2200, 30000)
-	nDuel := ev.Pick(2400, 24000)
-	type hrec struct {
-		prog  program
-		lines [][]byte // reset line + one JSON line per record (kept instead of the maps: 10x smaller)
+	// the programs run in child processes (child_test.go): a runtime fatal of the library kills only a child.
+	// An operation that never returns (watchdog) ends its run with a "hung" record; after three such runs on an
+	// object - or two dead children - no further program touching that object is started.
+	rec, rerr := recordHistories(e)
+	if rerr != nil {
+		e.Inconclusive("recording the concurrent histories failed: " + rerr.Error())
+		return
 	}
-	var hists []hrec
-	nProbes := 2 * len(probeWrites)
-	overlaps := 0
-	byProg := map[string]int{}
-	// an operation that never returns (watchdog) ends its run with a "hung" record; after three such runs on an
-	// object no further program touching that object is started (a wedged container costs seconds, not the test timeout)
-	hungRuns := map[string]int{}
-	nHung, nSkipped := 0, 0
-	record := func(p program, lockstep bool) {
-		for obj := range programObjs(p) {
-			if hungRuns[obj] >= 3 {
-				nSkipped++
-				return
-			}
-		}
-		evs, over, hung := runProgram(p, rng, lockstep)
-		hists = append(hists, hrec{p, marshalHistory(p.Name, evs)})
-		if hung {
-			nHung++
-			for obj := range hungObjs(evs) {
-				hungRuns[obj]++
-			}
-		}
-		if over {
-			overlaps++
-			byProg[p.Name]++
-			e.Nontrivial("lin:" + histKey(evs))
-		}
+	hists := rec.hists
+	pl := thePlan()
+	overlaps, byProg := rec.overlaps, rec.byProg
+	if rec.nHung > 0 || len(rec.crashes) > 0 {
+		fmt.Printf("watchdog: %d runs ended with an operation that never returned %v; %d child processes died; %d of %d programs were run\n", rec.nHung, rec.hung, len(rec.crashes), rec.ran, pl.total())
 	}
-	for i := 0; i < nProbes; i++ { // sequential probes first: they give hangs a deterministic name
-		record(probeProgram(i), false)
-	}
-	for i := 0; i < nRandom; i++ {
-		record(randomProgram(rng), rng.Intn(2) == 0)
-	}
-	for i := 0; i < nDuel; i++ {
-		record(duelProgram(rng, i), rng.Intn(5) != 0)
-	}
-	nTight := ev.Pick(600, 6000) // extra rounds of the two duels with the narrowest windows
-	for i := 0; i < nTight; i++ {
-		record(duelProgram(rng, 12+2*(i%2)), true)
-	}
-	nStaged := ev.Pick(400, 4000)
-	for i := 0; i < nStaged; i++ {
-		record(stagedProgram(rng, i), false)
-	}
-	if nHung > 0 {
-		fmt.Printf("watchdog: %d runs ended with an operation that never returned; %d programs skipped afterwards %v\n", nHung, nSkipped, hungRuns)
-	}
-	e.Set("hung_runs", int64(nHung))
+	e.Set("hung_runs", int64(rec.nHung))
+	e.Set("child_processes_killed", int64(len(rec.crashes)))
 	var mcwg, side sync.WaitGroup
 	defer side.Wait()
 	defer mcwg.Wait()
@@ -161,7 +120,7 @@ func TestCheck(t *testing.T) {
 		// (3) buffered ring
 		nBuf = bufTraces(e, rand.New(rand.NewSource(ev.Seed()+2000003)))
 	}()
-	fmt.Printf("histories: %d recorded (%d probes, %d random, %d+%d duels, %d staged Range/ForEach or sequential), %d with overlapping calls %v\n", len(hists), nProbes, nRandom, nDuel, nTight, nStaged, overlaps, byProg)
+	fmt.Printf("histories: %d recorded (%d probes, %d random, %d+%d duels, %d staged Range/ForEach or sequential), %d with overlapping calls %v\n", len(hists), pl.probes, pl.random, pl.duels, pl.tight, pl.staged, overlaps, byProg)
 	const chunk = 12000
 	linOpts := func(w int) tlc.Opts {
 		return tlc.Opts{Dir: specDir, Module: "TraceLin", Config: "TraceLin.cfg", Workers: w, Timeout: ev.Pick(6*time.Minute, 40*time.Minute), HeapMB: 12000}
@@ -195,11 +154,14 @@ func TestCheck(t *testing.T) {
 	e.Set("overlapping_by_program", byProg)
 	e.Set("linearization_search_states", linStates)
 	if len(rejected) > 0 {
-		classifyRejected(e, linOpts(8), rejected, func(i int) (program, []tv.M) { return hists[i].prog, unmarshalHistory(hists[i].lines) })
+		classifyRejected(e, linOpts(8), rejected, rec.crashes, func(i int) (program, []tv.M) {
+			p, _, _ := programAt(hists[i].i, ev.Seed())
+			return p, unmarshalHistory(hists[i].lines)
+		})
 	}
-	for _, i := range []int{0, nRandom, nRandom + 2} {
+	for _, i := range []int{pl.probes, pl.probes + pl.random, pl.probes + pl.random + 2} {
 		if i < len(hists) {
-			e.Sample(tv.M{"mode": "history", "program": hists[i].prog.Name, "trace": traceText(unmarshalHistory(hists[i].lines))})
+			e.Sample(tv.M{"mode": "history", "trace": traceText(unmarshalHistory(hists[i].lines))})
 		}
 	}
 
@@ -242,7 +204,39 @@ func TestCheck(t *testing.T) {
 // result no linearization explains (shortest rejected prefix, judged by TLC).
 // One violation is reported per object: that of its shortest rejected history
 // (the most direct manifestation); the others are summarised in its replay file.
-func classifyRejected(e *ev.Evidence, o tlc.Opts, rejected []int, get func(int) (program, []tv.M)) {
+func classifyRejected(e *ev.Evidence, o tlc.Opts, rejected []int, crashes []crashInfo, get func(int) (program, []tv.M)) {
+	// histories that end in a "crash" record: the child process died inside the program (TLC has no rule for it)
+	{
+		var rest []int
+		for _, hi := range rejected {
+			p, evs := get(hi)
+			if len(evs) == 0 || evs[len(evs)-1]["ev"] != "crash" {
+				rest = append(rest, hi)
+				continue
+			}
+			var ci crashInfo
+			for _, c := range crashes {
+				if fmt.Sprint(evs[len(evs)-1]["what"]) == c.Fatal {
+					ci = c
+					if c.Confirmed {
+						break
+					}
+				}
+			}
+			switch {
+			case ci.Obj == "":
+				e.Inconclusive("a child process died outside the library's code: " + ci.Fatal + "\n" + tail(ci.Log, 1500))
+			case !ci.Confirmed:
+				e.Inconclusive("a child process died inside the library (" + ci.Fatal + ") but a fresh child did not die again within its budget\n" + tail(ci.Log, 1500))
+			default:
+				e.Violation("crash:"+ci.Obj+":"+fatalClass(ci.Fatal), "the process was killed by '"+ci.Fatal+"' inside "+ci.Obj+" code while running a concurrent program; reproduced in a fresh child process ("+fmt.Sprint(len(crashes))+" children died in this run)", tv.M{"program": p, "crash": ci})
+			}
+		}
+		rejected = rest
+		if len(rejected) == 0 {
+			return
+		}
+	}
 	// histories that end in a "hung" record (TLC has no rule that consumes it): per object, the first sequential
 	// one names the finding; hangs seen only in concurrent programs get the generic key
 	{
@@ -721,13 +715,20 @@ func bufTraces(e *ev.Evidence, rng *rand.Rand) int64 {
 	traceOf := map[int][]string{} // rejected traces, by case index
 	events := 0
 	var sample []string
-	for from := 0; from < len(cases); {
+	nRunaway := 0
+	nBufHung := 0 // sequences that ended with an operation that never returned: after three the replay stops
+	for from := 0; from < len(cases) && (nBufHung < 3 || from == 0); {
 		b := &tv.Batch{}
 		to := from
-		for to < len(cases) && b.Lines() < ev.Pick(420000, 300000) {
+		for to < len(cases) && b.Lines() < ev.Pick(420000, 300000) && nBufHung < 3 {
 			c := cases[to]
-			if p := runBuf(b, c); p != "" {
-				fmt.Printf("ring.Buffered panicked: %s on %+v\n", p, c)
+			if hung, timedOut := runBuf(b, c); timedOut {
+				nBufHung++ // cost the full watchdog time
+			} else if hung {
+				nRunaway++ // ended by the callback's runaway bound: cheap, but pointless to repeat thousands of times
+				if nRunaway >= 150 {
+					nBufHung = 3
+				}
 			}
 			if strings.Contains(c.Muts, "R") {
 				e.Nontrivial(fmt.Sprint("buf:", c))
@@ -771,7 +772,9 @@ func bufTraces(e *ev.Evidence, rng *rand.Rand) int64 {
 			continue
 		}
 		key := "buf:" + r.Why
-		if onlyB[r.Why] {
+		if nBufHung >= 3 {
+			// the replay was cut short: "only with clamped sizes" cannot be claimed
+		} else if onlyB[r.Why] {
 			key += ":only-bufferSize<1"
 		} else if onlyI[r.Why] {
 			key += ":only-initialSize<1"
